@@ -10,7 +10,7 @@ Open Scope N_scope.
             obs_threads [[res ; map+2 ; trace]] ; mains [[owner;listen;target;taddr+1;laddr+1]] ; glob ;
             cidx [[client;owner]] ; bycode [5] ; byid [5] ; claimset ; ticked ; admk? ; admission markers left ] *)
 Definition dec_cfg (v : tval) : cfg :=
-  {| use_claim := vbool (vnth 0 v); create_cleanup := vbool (vnth 1 v); use_admit := vbool (vnth 17 v) |}.
+  {| use_claim := vbool (vnth 0 v); create_cleanup := vbool (vnth 1 v); use_admit := vbool (vnth 17 v); purge_revoked := false |}.
 Definition dec_params (v : tval) : params :=
   let pre := map (fun e => (vn (vnth 0 e), vnat (vnth 1 e))) (vl (vnth 3 v)) in
   {| p_tgt := vn (vnth 5 v); p_taddr := vn (vnth 6 v); p_qmax := vnat (vnth 2 v);
@@ -26,6 +26,7 @@ Definition dec_kind (e : tval) : kind :=
   match vn (vnth 0 e) with
   | 0 => KAct (vn (vnth 1 e)) (vn (vnth 2 e) - 1) (negb (N.eqb (vn (vnth 2 e)) 0))
   | 1 => KRev
+  | 3 => KList
   | _ => KTick
   end.
 Definition dec_fault (e : tval) : option nat :=
@@ -40,7 +41,7 @@ Fixpoint dec_threads (i : nat) (l : list tval) : list lo :=
 Definition step_log (C : cfg) (P : params) (acc : st sh lo * list (nat * nat)) (i : nat) : st sh lo * list (nat * nat) :=
   let '(s, lg) := acc in
   let lg' := match nth_error (snd s) i with
-             | Some t => match l_kind t, pc_code (l_pc t) with
+             | Some t => match l_kind t, op_code (l_kind t) (l_pc t) with
                          | KTick, _ => lg
                          | _, O => lg
                          | _, c => (i, c) :: lg
@@ -55,11 +56,11 @@ Definition model_run (v : tval) : st sh lo * list (nat * nat) :=
   (* a code revoked / activated during setup went through the real calls: with the claim patch its claim key is set *)
   let claimed0 := use_claim C && (N.eqb (vn (vnth 4 v)) 1 || N.eqb (vn (vnth 4 v)) 2) in
   fold_left (step_log C P) (map vnat (vl (vnth 8 v)))
-            ((set_claim (init_sh (dec_code v)) claimed0, dec_threads 0 (vl (vnth 7 v))), []).
+            ((set_tidx (set_claim (init_sh (dec_code v)) claimed0) (negb (N.eqb (vn (vnth 4 v)) 3)), dec_threads 0 (vl (vnth 7 v))), []).
 
 Definition res_code (t : lo) : N :=
   match l_pc t with
-  | PDone (ROk _) => 0 | PDone RRevoked => 0 | PDone RGone => 0 | PDone RTick => 100 | PDone (RErr e) => e | PDone RUnmodelled => 999
+  | PDone (ROk _) => 0 | PDone RRevoked => 0 | PDone RGone => 0 | PDone RListed => 0 | PDone RTick => 100 | PDone (RErr e) => e | PDone RUnmodelled => 999
   | _ => match l_kind t with KTick => 0 | _ => 998 end
   end.
 Definition res_map (t : lo) : N :=        (* map + 2 *)
@@ -111,7 +112,8 @@ Definition check (v : tval) : bool :=
   && (ticked || (list_eqb (enc_rec (by_code sh)) (nl (vnth 13 v))
                  && list_eqb (enc_rec (by_id sh)) (nl (vnth 14 v))
                  && Bool.eqb (claim sh) (vbool (vnth 15 v))))
-  && N.eqb (N.of_nat (length (admk sh))) (vn (vnth 18 v)).
+  && N.eqb (N.of_nat (length (admk sh))) (vn (vnth 18 v))
+  && Bool.eqb (tidx sh) (vbool (vnth 19 v)).
 
 Definition predict (v : tval) : tval :=
   let '(s, lg) := model_run v in
@@ -123,4 +125,4 @@ Definition predict (v : tval) : tval :=
        VL (map (fun i => VN (N.of_nat i)) (isort Nat.leb (glob sh)));
        VL (map (fun e => VL [VN (fst e); VN (N.of_nat (snd e))]) (isort pair_le (cidx sh)));
        VL (map VN (enc_rec (by_code sh))); VL (map VN (enc_rec (by_id sh))); vN_of_bool (claim sh);
-       VN (N.of_nat (length (admk sh))) ].
+       VN (N.of_nat (length (admk sh))); vN_of_bool (tidx sh) ].
